@@ -217,9 +217,31 @@ pub struct Recv {
     pub shape: Shape,
     /// generic parameter list text and where clause (C20 hostile profile); empty otherwise
     pub generics: String,
+    /// options on the only field of a newtype struct (`struct R(#[darling(with = .., map = ..)] T);`)
+    pub inner_with: With,
+    pub inner_post: Post,
 }
 
 impl Recv {
+    /// the only field of a newtype struct, as a field carrying the newtype's inner options
+    pub fn newtype_field(&self) -> Option<Field> {
+        match &self.shape {
+            Shape::Newtype(t) if self.tr == Trait::Meta => Some(Field {
+                rust: "nt".to_string(),
+                ty: t.clone(),
+                multiple: false,
+                rename: None,
+                default: Def::None,
+                skip: false,
+                flatten: false,
+                with: self.inner_with,
+                post: self.inner_post,
+                split_attrs: false,
+            }),
+            _ => None,
+        }
+    }
+
     pub fn name(&self) -> String {
         format!("R{}", self.id)
     }
@@ -523,6 +545,8 @@ impl<'a> Gen<'a> {
             magic: vec![],
             shape,
             generics: String::new(),
+            inner_with: With::None,
+            inner_post: Post::None,
         });
         if self.rng.chance(2, 3) {
             let inner = match self.rng.below(4) {
@@ -531,6 +555,31 @@ impl<'a> Gen<'a> {
                 _ => Ty::Sc(self.scalar()),
             };
             self.recvs[id].shape = Shape::Newtype(inner);
+        }
+        // a newtype is a receiver like any other: container-level map / and_then, and with / map /
+        // and_then on its only field
+        if self.profile.options {
+            if let Shape::Newtype(Ty::Sc(sc)) = self.recvs[id].shape.clone() {
+                if matches!(sc, Sc::I64 | Sc::Str) {
+                    match self.rng.below(6) {
+                        0 => self.recvs[id].post = Post::Map,
+                        1 => self.recvs[id].post = Post::AndThen,
+                        _ => {}
+                    }
+                }
+                if matches!(sc, Sc::I64 | Sc::U8 | Sc::Str) {
+                    match self.rng.below(8) {
+                        0 => self.recvs[id].inner_with = With::Path,
+                        1 => self.recvs[id].inner_with = With::Closure,
+                        _ => {}
+                    }
+                    match self.rng.below(8) {
+                        0 => self.recvs[id].inner_post = Post::Map,
+                        1 => self.recvs[id].inner_post = Post::AndThen,
+                        _ => {}
+                    }
+                }
+            }
         }
         // a declared value-for-absent on a unit / newtype receiver
         if self.profile.options && self.rng.chance(1, 3) {
@@ -560,6 +609,8 @@ impl<'a> Gen<'a> {
             magic: vec![],
             shape: Shape::Struct(vec![]),
             generics: String::new(),
+            inner_with: With::None,
+            inner_post: Post::None,
         });
         let opts = self.profile.options;
         let mut r = self.recvs[id].clone();
@@ -692,6 +743,8 @@ impl<'a> Gen<'a> {
             magic: vec![],
             shape: Shape::Struct(vec![]),
             generics: String::new(),
+            inner_with: With::None,
+            inner_post: Post::None,
         };
         self.recvs.push(r.clone());
         if self.profile.options && self.rng.chance(1, 3) {
@@ -779,6 +832,8 @@ impl<'a> Gen<'a> {
                 magic: vec![],
                 shape: Shape::Newtype(Ty::Recv(id)),
                 generics: if generic { "<T>".to_string() } else { String::new() },
+                inner_with: With::None,
+                inner_post: Post::None,
             });
             return outer;
         }
@@ -866,6 +921,8 @@ impl<'a> Gen<'a> {
             }],
             shape: Shape::Struct(vec![]),
             generics: String::new(),
+            inner_with: With::None,
+            inner_post: Post::None,
         };
         self.recvs.push(r.clone());
         // one optional and one required scalar option keep body-layer mistakes expressible
